@@ -251,8 +251,8 @@ def judge_repeating(sc, res):
             continue
         if e["kind"] == "exit":
             last_exit = e["reason"]
-        elif e["kind"] == "launch" and e.get("launch_error"):
-            last_exit = "LaunchFailed"
+        # a failed submission is not a task exit: the engine's exit reason stays that of the last task that ran, and
+        # "the submission itself failed" is a legitimate reason to start again anyway
         elif e["kind"] == "drive.restart":
             cnt["rep_restart_calls"] += 1
             if e["code"] == "RestartInitiated":
